@@ -59,6 +59,19 @@ def instrument_hl7apy():
         K.mark_strong(codes)
     for v in sorted(hl7apy.SUPPORTED_LIBRARIES.values()):
         K.mark_strong(K.code_objects_of(importlib.import_module(v), EXCLUDE))
+    import hl7apy.core as core
+    lookup = set()
+    for cls in (core.Element, core.SupportComplexDataType, core.CanBeVaries, core.SubComponent, core.Component, core.Field,
+                core.Segment, core.Group, core.Message):
+        for nm in ('find_child_reference', '_find_structure', 'parse_child', 'parse_children', '_is_valid_child'):
+            f = cls.__dict__.get(nm)
+            if f is not None and hasattr(f, '__code__'):
+                lookup.add(f.__code__)
+    for nm in ('create_element', 'set', '_find_name', '_default_child_lookup', 'child_at_index', '_can_add_child'):
+        lookup.add(core.ElementList.__dict__[nm].__code__)
+    for nm in ('get_structure', '_parse_structure'):
+        lookup.add(core.ElementFinder.__dict__[nm].__func__.__code__)
+    K.mark_lookup(lookup)
     for modname, names in TOUCH.items():
         m = importlib.import_module(modname)
         for qual in names:
